@@ -26,7 +26,8 @@ def list_ops(r):
     k, k2, v = r.choice(LIST_KEYS), r.choice(LIST_KEYS), r.choice(VALS)
     return r.choice([f'push(c, {v})', 'pop(c)', f'pop(c, {k})', f'insert(c, {k}, {v})', f'remove(c, {v})', f'c[{k}]',
                      f'c[{k}] = {v}', f'c[{k}] += 1', f'del c[{k}]', f'index_of(c, {v})', 'len(c)', f'{v} in c',
-                     f'c[{k}:{k2}]', f'c.push({v})', f'c[{k}] *= 2', 'c + [1]', 'sorted(c, v => 0)', 'reversed(c)'])
+                     f'c[{k}:{k2}]', f'c.push({v})', f'c[{k}] *= 2', 'c + [1]', 'sorted(c, v => 0)', 'reversed(c)',
+                     f'push(c, {v}, {v})', f'c.push(1, 2, 3)', f'insert(c, {k}, {v}, {v})', 'c | push(1, 2)', f'pop(c, {k}, 1)'])
 
 
 def dict_ops(r):
@@ -215,11 +216,27 @@ def probe_cases(seed, n):
             src = f'c = [1, 2]; c[{probe_shapes(r, 1, c)}] += {probe_shapes(r, 1, c)}'
         elif k == 2:
             src = f'x = {probe_shapes(r, 2, c)}; x'
+        elif k == 3:
+            c[0] += 3
+            op = r.choice(['+=', '-=', '*=', '/=', '='])
+            src = f't = [[1, 2], [3, 4]]; t[probe({c[0] - 2})][probe({c[0] - 1})] {op} probe({c[0]}); t'
+        elif k == 4:
+            c[0] += 3
+            src = f'apply(w => [[5, 6], [7, 8]], probe({c[0] - 2}))[probe({c[0] - 1})][0] {r.choice(["+=", "="])} probe({c[0]})'
+        elif k == 5:
+            c[0] += 2
+            src = f'd = {{"a": [1], "b": [2]}}; del d[probe({c[0] - 1})]; push(d[probe({c[0]})], probe({c[0]})); d'
         else:
             src = probe_shapes(r, r.randint(1, 4), c)
         ps = []
         for j in range(1, c[0] + 1):
             m = r.randrange(8)
+            if k in (3, 4) and j > c[0] - 3:
+                ps.append(f'({j} ret {r.choice(["I:0", "I:1", "D:0:1:0:c", "D:0:0:0:c", "I:5", "T"])})')
+                continue
+            if k == 5 and j > c[0] - 2:
+                ps.append(f'({j} ret {r.choice(["S:61", "S:62", "S:63"])})')
+                continue
             if m == 0:
                 ps.append(f'({j} ret F)')
             elif m == 1:
@@ -255,12 +272,15 @@ def scope_cases(seed, n):
         stmts = []
         if r.random() < 0.5:
             stmts.append(f'{nm} = 5')
-        k = r.randrange(8)
+        k = r.randrange(11)
         call = {0: f'r = apply({nm} => {body}, 1)', 1: f'r = map([1, 2], {nm} => {body})',
                 2: f'r = try_apply({nm} => {body}, 1)', 3: f'f = {nm} => {body}; r = [f(1), f(2)]',
                 4: f'f = ({nm}, d) => ({body} if d < 1 else f({nm} + 1, d - 1)); r = f(1, 2)',
                 5: f'r = try_apply(w => map([1, 2], {nm} => {body}), 0)',
-                6: f'r = sorted([2, 1], {nm} => {body})', 7: f'r = reduce([1, 2, 3], ({nm}, b) => {body})'}[k]
+                6: f'r = sorted([2, 1], {nm} => {body})', 7: f'r = reduce([1, 2, 3], ({nm}, b) => {body})',
+                8: f'f = {nm} => (0 if {nm} < 1 else f({nm} - 1) + {nm}); r = f(4)',
+                9: f'f = {nm} => ([] if {nm} < 1 else [f({nm} - 1), {nm}, try_apply(f, {nm} - 2), {nm}]); r = f(3)',
+                10: f'f = ({nm}, acc) => (acc if {nm} < 1 else [f({nm} - 1, acc), {nm}]); r = map([1, 2], w => f(w, 0))'}[k]
         stmts.append(call)
         stmts.append(r.choice([nm, f'[{nm}, r]', 'r', f'try_apply(w => {nm}, 0)', f'try_apply(w => loc, 0)', 'try_apply(w => p, 0)']))
         src = '\n'.join(stmts)
@@ -280,14 +300,18 @@ def alias_cases(seed, n):
                        '(L 1 (M 2 (S:6b (L 3))) (L 4 I:1))', he.lnum(), he.dict_()])
         ent = f'(S:{hx("h")} {hv})'
         form = r.randrange(6)
+        form = r.randrange(10)
         src0 = {0: 'x = h', 1: 'c = [0, 0]; c[0] = h; x = c[0]', 2: 'x = [h, h]', 3: 'd = {}; d["k"] = h; x = d["k"]',
-                4: 'x = [1]; x += h', 5: 'c = [[1]]; c[0] += h; x = c[0]'}[form]
+                4: 'x = [1]; x += h', 5: 'c = [[1]]; c[0] += h; x = c[0]',
+                6: 'x = h; y = h; try_apply(w => y.push(5), 0); try_apply(w => y[0].push(6), 0)',
+                7: 'y = h; x = h[0]; try_apply(w => y[0].push(6), 0)', 8: 'x = h; acc = [0]; acc += h; try_apply(w => acc[1].push(8), 0)',
+                9: 'x = h; h.push(1); y = h; try_apply(w => y.push(2), 0)'}[form]
         stmts = [src0]
         for _ in range(r.randint(1, 4)):
             stmts.append(r.choice(muts).format(t=r.choice(['x', 'h', 'x', 'h', 'x[0]', 'h[0]'])))
         import re as _re
         stmts = [s if _re.search(r'(^|[^=!<>])=($|[^=>])', s) or s.startswith('del ') else f'try_apply(w => {s}, 0)' for s in stmts]
-        stmts.append('[x, h]')
+        stmts.append('[x, h, try_apply(w => y, 0), try_apply(w => acc, 0)]')
         src = '\n'.join(stmts)
         cases.append((eval_line(src, ent), src))
     return cases
